@@ -15,7 +15,9 @@ open Embit Model
 /-- a parser that consumes at least one byte whenever it succeeds -/
 def Consuming {α : Type} (p : Parser α) : Prop := ∀ b x r, p b = some (x, r) → r.length < b.length
 
-/-- iterations of `for i in range(n): p(stream)` including the failing one that ends the loop -/
+/-- iterations of `for i in range(n): p(stream)` including the failing one that ends the loop. A stand-alone counter
+    (audit A5): what links it to the parsers is `C17Y.iterations_le_steps` (it is a lower bound of the step count of the
+    instrumented loop `readManyC`, whose value part is `readMany`), and the parsers' own bounds are in `Props/C17Y.lean` -/
 def readManySteps {α : Type} (p : Parser α) : Nat → Bytes → Nat
   | 0, _ => 0
   | n+1, b => match p b with
